@@ -41,7 +41,11 @@ RULE = (
     "simulation running + a fresh Simulation (time continues) with 1-4 concurrent clients (put/delete/get, in a third "
     "of the cases also put_sync/get_sync), bursts, and a client retrying the tail of a previous-epoch program; the "
     "epoch is cut after k events (or at quiescence), crash(), recover_from_crash(), get_sync sweep, second recover; "
-    "10 (quick) / 40 (thorough) crash schedules per workload; non-trivial = schedule with >= 2 crashes."
+    "10 (quick) / 40 (thorough) crash schedules per workload; non-trivial = schedule with >= 2 crashes. A third of the "
+    "epochs workloads are in pile-up mode (memtable 1-2, batch / periodic sync, put_sync from inside the simulation, "
+    "bursts in every epoch, 60 % of the crashes at quiescence) so that several memtables are in flight and one flush "
+    "call installs more than one SSTable (observed.flush_calls_installing_two_or_more_sstables, from the public "
+    "flush counter: >= 2 installs in one delivery that are not put_sync flushes of that delivery)."
 )
 ASSUMPTIONS = [
     "an operation is durable iff its WAL sequence number (position of its append, taken from the public "
@@ -57,10 +61,20 @@ ASSUMPTIONS = [
     "sweep) may return any write not superseded by a certain write that began after it completed and completed "
     "before the read began; writes of earlier epochs that were not durable may or may not have survived; a power "
     "failure kills the operations in progress (the interrupted Simulation is abandoned and garbage-collected)",
+    "nothing-volatile clause: when crash() itself reports 0 memtable and 0 immutable-memtable entries lost (its public "
+    "return value) and no put/delete was in flight, everything visible before the crash was in installed SSTables, so "
+    "crash()+recover_from_crash() must leave get_sync of every key unchanged (this is how a resurrection of a value "
+    "overwritten by a flushed-but-never-synced operation is decided without looking into the tree)",
     "FIFO compaction may drop data by design: under FIFO a lost durable write is tolerated once a compaction has "
     "completed, resurrection and never-written values are not",
 ]
-MUST_OBSERVE = ["crash_points_checked", "keys_checked", "durable_ops_at_crash"]
+MUST_OBSERVE = [
+    "crash_points_checked",
+    "keys_checked",
+    "durable_ops_at_crash",
+    "flush_calls_installing_two_or_more_sstables",
+    "keys_checked_at_crashes_with_nothing_volatile",
+]
 
 MIX = {"put": 0.62, "delete": 0.28, "get": 0.10}
 
@@ -134,7 +148,7 @@ def _crash_at(case: dict, k: int, res: Result) -> None:
 
     # what the store answers just before the crash (read-only; used for the mechanism shape, not for the verdict)
     state0 = {key: store.get_sync(key) for key in case["keys"]}
-    store.crash()
+    lost = store.crash()
     store.recover_from_crash()
     state1 = {key: store.get_sync(key) for key in case["keys"]}
     store.recover_from_crash()
@@ -145,6 +159,24 @@ def _crash_at(case: dict, k: int, res: Result) -> None:
 
     res.count("crash_points_checked")
     res.count("events_monitored", k)
+    res.count("flush_calls_installing_two_or_more_sstables", sampler.multi_install_events)
+    # a crash that found nothing volatile (public return value of crash()) and no write in flight must not change
+    # what any key reads: everything visible was in installed SSTables, the log may only replay what they contain
+    if (
+        lost["memtable_entries_lost"] == 0
+        and lost["immutable_memtable_entries_lost"] == 0
+        and not any(r["op"] in ("put", "delete") and r["t1"] is None for r in recs)
+    ):
+        for key in case["keys"]:
+            res.count("keys_checked_at_crashes_with_nothing_volatile")
+            if state1[key] != state0[key]:
+                res.add(
+                    "crash-with-nothing-volatile-changes-state",
+                    "LSMTree",
+                    f"no-write-in-flight-memtables-empty-policy-{cfg['wal']['policy']['kind']}",
+                    f"crash after event {k}: nothing volatile was lost, get_sync({key!r}) was {state0[key]!r} before and is {state1[key]!r} after crash+recovery",
+                    {"k": k, "key": key, "crash_report": lost},
+                )
     width = int(round(cfg["sstable_write_latency"] * 1e9))
     fifo = cfg["strategy"]["kind"] == "fifo"
     policy = cfg["wal"]["policy"]["kind"]
